@@ -1,0 +1,20 @@
+//go:build verif
+
+package exec
+
+// Hooks for the C20 driver (/verif/harness/c20). Add-only; compiled with -tags verif.
+
+// VerifC20ForgetTasks makes the driver consider every task of r's task graph
+// lost although the workers still hold their output, as happens when the
+// driver loses contact with a machine that is in fact alive or when a
+// Worker.Run call is retried. The evaluator then submits the tasks again when
+// a later computation needs r. It returns the number of tasks marked.
+func VerifC20ForgetTasks(r *Result) int {
+	n := 0
+	_ = iterTasks(r.tasks, func(task *Task) error {
+		task.Set(TaskLost)
+		n++
+		return nil
+	})
+	return n
+}
